@@ -235,6 +235,8 @@ def register(an):
                 return v
             if nm == 'is_some_and':
                 return ('bool', ('const', False))
+            if nm == 'map_or':
+                return args[1]
             return None
         payload = an.field_of(v, okv, '0', st, frame)
         if nm == 'filter':
@@ -255,6 +257,10 @@ def register(an):
             if v[2] == frozenset([1]):
                 return r
             return ('bool', B_UNK)
+        if nm == 'map_or' and r is not None:
+            if v[2] == frozenset([1]):
+                return r
+            return join_vals(an, st, args[1], r, an.subst_ty(t.dest.ty, frame))
         return None
 
     @model('core::ops::try_trait::Try::branch')
